@@ -160,7 +160,12 @@ def classify(b, diff, a, e):
     t = set(b["tags"])
     if b["dialect"] == "non-validating" and "col.qualified_by_full_name" in t:
         return "KF-16e"  # schema.table.column: the legacy analyzer takes the schema for the qualifier; an alias added to the table removes that spelling
-    if b["dialect"] == "non-validating" and (b["mode"] == "toggle_as" or any(str(v).startswith("tb_k") for v in (b.get("mapping") or {}).values())):
+    def subq_star(k):
+        return {c for p in _pairs(b, k) for c in p if c.endswith(".*") and c.count(".") == 1}
+    # KF-30e (measured): toggling AS changes nothing but whether a star over a derived table is expanded (the sub-query star is on one side only)
+    if b["dialect"] == "non-validating" and b["mode"] == "toggle_as" and diff == ["column_pairs"] and subq_star("original_mapped_minus_renamed") != subq_star("renamed_minus_original"):
+        return "KF-30e"
+    if b["dialect"] == "non-validating" and any(str(v).startswith("tb_k") for v in (b.get("mapping") or {}).values()):
         return "KF-30e"
     if b["dialect"] == "non-validating" and t & {"select.star_qualified", "select.star"} and diff == ["column_pairs"] and \
             any(p[0].endswith(".*") for k in ("original_mapped_minus_renamed", "renamed_minus_original") for p in _pairs(b, k)):
